@@ -1,4 +1,4 @@
 SPECIFICATION Spec
-CONSTANT MaxN = 8
+CONSTANT MaxN = 6
 INVARIANT ChainShort
 CHECK_DEADLOCK FALSE
